@@ -180,21 +180,32 @@ fn request(ep: u32, tok: &[u8], path: &str, mid: u16) -> CoapRequest<Ep> {
 }
 
 fn apply_impl(s: &mut Subject<Ep>, a: &Act) -> Result<(), mccore::Panicked> {
+    // (return values are discarded: an operation that starts to return something is still the same operation)
     match a {
         Act::Register(e, t, p) => {
             let r = request(*e, &token_of(*t), p, 1);
-            guard(|| s.register(&r))
+            guard(|| {
+                let _ = s.register(&r);
+            })
         }
         Act::Deregister(e, t, p) => {
             let r = request(*e, &token_of(*t), p, 2);
-            guard(|| s.deregister(&r))
+            guard(|| {
+                let _ = s.deregister(&r);
+            })
         }
-        Act::Changed(p, mid, con) => guard(|| s.resource_changed(p, *mid, *con)),
+        Act::Changed(p, mid, con) => guard(|| {
+            let _ = s.resource_changed(p, *mid, *con);
+        }),
         Act::Ack(e, mid) => {
             let r = request(*e, &[], "", *mid);
-            guard(|| s.acknowledge(&r))
+            guard(|| {
+                let _ = s.acknowledge(&r);
+            })
         }
-        Act::SetLimit(l) => guard(|| s.set_unacknowledged_limit(*l)),
+        Act::SetLimit(l) => guard(|| {
+            let _ = s.set_unacknowledged_limit(*l);
+        }),
     }
 }
 
